@@ -229,9 +229,17 @@ class Ctx:
 
 
 def _load_known():
-    p = os.path.join(ROOT, 'known_findings.json')
-    try:
-        with open(p) as f:
-            return json.load(f)
-    except FileNotFoundError:
-        return {}
+    out = {'findings': [], 'fixed': []}
+    paths = [os.path.join(ROOT, 'known_findings.json')]
+    d = os.path.join(ROOT, 'known_findings.d')
+    if os.path.isdir(d):
+        paths += [os.path.join(d, f) for f in sorted(os.listdir(d)) if f.endswith('.json')]
+    for p in paths:
+        try:
+            with open(p) as f:
+                k = json.load(f)
+            out['findings'] += k.get('findings', [])
+            out['fixed'] += k.get('fixed', [])
+        except FileNotFoundError:
+            pass
+    return out
